@@ -61,6 +61,10 @@ type bufWrite struct {
 	width int
 	val   ssa.Value   // value written (binary.Write operand, stripped of the interface conversion)
 	elems []ssa.Value // a field written byte by byte ([]byte{a, b}, p[i], p[i+1] = a, b): the bytes in order
+	// written by a helper that was handed the buffer (positional.go, mapHelperWrite): val is the
+	// call's argument converted to conv, or (val nil) the length of the slice lenOf
+	conv  types.BasicKind
+	lenOf ssa.Value
 }
 
 // bufferWrites: the writes into one bytes.Buffer of a straight-line builder.
@@ -356,13 +360,16 @@ func c16HeaderAs(c *Ctx, rule string) {
 	// length = len(data) + 8, data = parameter 1
 	lenOK := false
 	var detail string
-	lv := strip(writes[2].val)
+	var lv ssa.Value
+	if writes[2].val != nil {
+		lv = strip(writes[2].val)
+	}
 	positional := false
 	if ms, isMake := buf.(*ssa.MakeSlice); isMake {
 		// positional style: the packet is allocated at its final length, so len(packet) is the
 		// allocation length; that length itself must be header + len(data)
 		positional = true
-		if isLenOf(lv, ms) {
+		if lv != nil && isLenOf(lv, ms) || lv == nil && writes[2].lenOf == ssa.Value(ms) {
 			lv = strip(ms.Len)
 		}
 		if lb, ok := strip(ms.Len).(*ssa.BinOp); !ok || lb.Op != token.ADD {
